@@ -4992,6 +4992,10 @@ impl<'a, 'graph> Builder<'a, 'graph> {
   }
 
   fn handle_provided_imports(&mut self, imports: Vec<ReferrerImports>) {
+    if !self.graph.graph_kind.include_types() {
+      // these are always types (pruning the types of a graph clears them)
+      return;
+    }
     for referrer_imports in imports {
       let referrer = referrer_imports.referrer;
       let imports = referrer_imports.imports;
